@@ -74,6 +74,18 @@ class Contract:
         return base
 
 
+class ValSeq:
+    """abstract python list of user values: symbolic length, element i is an opaque Val"""
+
+    def __init__(self, name, length):
+        self.name = name
+        self.length = length
+        self.fn = z3.Function(name + '.at', IntS, ValS)
+
+    def at(self, I, i):
+        return VOpaque(self.fn(i))
+
+
 class ObjSeq:
     """abstract sequence of objects (e.g. a member list): symbolic length, element i is a
     record whose fields are uninterpreted functions of i"""
@@ -305,8 +317,12 @@ class Registry:
                                 c.abstract = v
                             elif k.arg == 'bounded':
                                 c.bounded = v
-                        if c.for_class == '*':
-                            for cls in self.concrete_inheritors(rel, qual):
+                        if c.for_class in ('*', 'any'):
+                            inheritors = self.concrete_inheritors(rel, qual)
+                            if c.for_class == 'any':
+                                # the body does not depend on the concrete class (abstract callees only): one representative
+                                inheritors = inheritors[:1]
+                            for cls in inheritors:
                                 c2 = self.parse_contract_body(rel, qual, node, path)
                                 c2.props, c2.label, c2.inline, c2.abstract, c2.bounded = c.props, c.label, c.inline, c.abstract, c.bounded
                                 c2.for_class = cls.name
@@ -557,6 +573,10 @@ class Registry:
                 return VNone
             if n == 'AbsList':
                 return VAbsList('list')
+            if n == 'ValSeq':
+                ln = p.fresh_int(base + '.len')
+                p.assume(ln >= 0)
+                return VConst('objseq', ValSeq(p.fresh_name(base), ln))
             if n == 'Float':
                 return VFloat(z3.Real(p.fresh_name(base)))
             if n in ALIASES:
